@@ -518,7 +518,7 @@ def r6(ctx, fs):
     got = {}
     for p in enum_paths(loops[0]['slots']['body']):
         conds = tuple((canon(c[1], env, subst=False), c[2]) for c in p.conds if c[0] == 'if')
-        got[conds] = sorted(show(canon(s, env, subst=False)) for s in p.live(env))
+        got[conds] = sorted(show(canon(s, env, subst=False)).replace('(++ counter)', '(post++ counter)') for s in p.live(env))       # `++counter;` and `counter++;` are one statement
     first = ('.', ('mcall', 'std::set<unsigned long>::insert', 'seen', ('call', 'smt::variable', q)), 'second')
     cur = ('==', ) + tuple(sorted((LQ, ('mcall', SC + 'decision_level', 'this')), key=repr))
     low = ('<', ('num', 0), LQ)
@@ -541,9 +541,41 @@ def r6(ctx, fs):
         'trail unwound with pop_one': ('mcall', SC + 'pop_one', 'this') in effs,
         'candidate taken from the end of the trail': ('=', 'p', ('mcall', 'std::vector<smt::lit>::back', SC + 'trail')) in effs,
     }
-    dos = [n for n in f.nodes() if n.get('k') == 'DoStmt']
-    conds = sorted(show(canon(n['slots']['cond'], env, subst=False)) for n in dos)
-    facts['loops: until a seen variable / while counter > 0'] = conds == sorted([show(('!', ('mcall', 'std::set<unsigned long>::count', 'seen', ('call', 'smt::variable', 'p')))), show(('<', ('num', 0), 'counter'))])
+    # the two loops, by the condition under which they go round again - whatever spells them (`do .. while (c)`, `while (true) { ..; if (!c) break; }`,
+    # `for (;;)`), the decrement of the counter inside the test or before it
+    from ..tables import norm_literal
+
+    def strip_dec(t):
+        if isinstance(t, tuple) and len(t) == 2 and t[0] in ('--', 'post--'):
+            decs.append(t[1])
+            return t[1]
+        if isinstance(t, tuple):
+            return tuple(strip_dec(x) for x in t)
+        return t
+    decs = []
+    conts = []
+    for n in f.nodes():
+        k = n.get('k')
+        if k not in ('DoStmt', 'WhileStmt', 'ForStmt'):
+            continue
+        c = (n.get('slots') or {}).get('cond')
+        forever = c is None or (c.get('k') == 'CXXBoolLiteralExpr' and c.get('val'))
+        if not forever:
+            conts.append(norm_literal(strip_dec(canon(c, env, subst=False)), True))
+            continue
+        body = n['slots'].get('body') or {}
+        sts = [x for x in (body.get('c') or ()) if x.get('k') != 'NullStmt'] if body.get('k') == 'CompoundStmt' else [body]
+        last = sts[-1] if sts else None
+        if last is not None and last.get('k') == 'IfStmt' and last['slots'].get('else') is None:
+            th = last['slots'].get('then')
+            while isinstance(th, dict) and th.get('k') == 'CompoundStmt' and len(th.get('c') or ()) == 1:
+                th = th['c'][0]
+            if isinstance(th, dict) and th.get('k') == 'BreakStmt':
+                conts.append(norm_literal(strip_dec(canon(last['slots']['cond'], env, subst=False)), False))
+    want_c = [norm_literal(('!', ('mcall', 'std::set<unsigned long>::count', 'seen', ('call', 'smt::variable', 'p'))), True), norm_literal(('<', ('num', 0), 'counter'), True)]
+    facts['loops: until a seen variable / while counter > 0'] = sorted(map(repr, conts)) == sorted(map(repr, want_c))
+    if 'counter' in decs:
+        facts['counter decremented per resolved literal'] = True
     for k, v in facts.items():
         ctx.instance(rid, [f.id, k], {'fact': k, 'holds': v})
         if not v:
